@@ -28,8 +28,13 @@ for sid, runs in res.items():
         else:
             missed.append(f"{r['prop']} ({r['tier']})")
     if caught:
+        prev = [c for c in (meta.get('caught_by') or []) if c.startswith('NOT CAUGHT') or c.startswith('initially')]
+        if prev:
+            caught = caught + ['initially MISSED (' + '; '.join(prev)[:200] + ')']
         meta['caught_by'] = caught + (['not reported by: ' + ', '.join(missed)] if missed else [])
         meta['status'] = 'caught'
+    elif meta.get('status') == 'caught':
+        continue                      # never downgrade an entry on a partial re-run
     else:
         meta['caught_by'] = ['NOT CAUGHT by ' + ', '.join(missed)]
         meta['status'] = 'MISSED'
